@@ -102,6 +102,10 @@ Section Paths.
 
   (* tmp = f"{path}.tmp.{os.getpid()}" *)
   Definition tmp_of (path : str) : str := path ++ SL_TMP_INFIX ++ pid.
+
+  (* MCP_CACHE_PATH, and the tmp name the refresh pipeline of get_mcp_servers redirects into *)
+  Definition mcp_cache_path : str := path_join cache_dir SL_MCP_CACHE_NAME.
+  Definition mcp_tmp : str := mcp_cache_path ++ SL_MCP_TMP_INFIX ++ pid.
 End Paths.
 
 (* ================================================================= Part 3 *)
@@ -213,6 +217,10 @@ Inductive stored :=
 
 (* can the text be encoded as UTF-8 (errors="strict"): no surrogate code points *)
 Definition encodable (s : str) : bool := forallb (fun c => negb ((55296 <=? c) && (c <=? 57343))) s.
+(* print(s): sys.stdout.errors is "strict" in an ordinary UTF-8 locale and "surrogateescape" (sesc) in the
+   C / C.UTF-8 / POSIX locales, where U+DC80..U+DCFF go out as the bytes 80..FF *)
+Definition encodable_out (sesc : bool) (s : str) : bool :=
+  forallb (fun c => negb ((55296 <=? c) && (c <=? 57343)) || (sesc && (56448 <=? c) && (c <=? 56575))) s.
 
 (* does open(v, "rb") designate an already open descriptor of the process (closed again on
    leaving the with block)?  bool is an int in Python. *)
@@ -239,6 +247,7 @@ Record outcome := {
 Section Main.
   Variable base : str.
   Variable pid : str.
+  Variable sesc : bool.      (* sys.stdout.errors == "surrogateescape" *)
   (* interpreter: str(x) of a list / dict *)
   Variable o_repr : json -> str.
   (* data sources: the bodies of the try blocks *)
@@ -440,7 +449,7 @@ Section Main.
 
   (* print(line), then the guard's print("?") if that raised *)
   Definition emit (guarded : bool) (line : str) (is_cached : bool) (st : stored) (rf : bool) : outcome :=
-    if encodable line then
+    if encodable_out sesc line then
       {| exit_ok := true; out := line ++ NL; traceback := false; served := is_cached; store := st; refresh := rf |}
     else if guarded then
       {| exit_ok := true; out := QMARK ++ NL; traceback := false; served := false; store := st; refresh := rf |}
@@ -488,6 +497,7 @@ Fixpoint univ_nl (s : str) : str :=
 (* one invocation: its input and the answers of its data sources *)
 Record invocation := {
   i_pid : str;
+  i_sesc : bool;
   i_inp : option json;
   i_repr : json -> str;
   i_configured : res bool;
@@ -505,7 +515,7 @@ Definition files := str -> option str.       (* path -> what was written there *
 Definition fupd (f : files) (p : str) (v : str) : files := fun q => if str_eqb q p then Some v else f q.
 
 Definition invoke (base : str) (f : files) (i : invocation) : files * outcome :=
-  let o := sl_main base (i_pid i) (i_repr i) (i_configured i) (i_branch i) (i_changes i) (i_transcript i) (i_pct i)
+  let o := sl_main base (i_pid i) (i_sesc i) (i_repr i) (i_configured i) (i_branch i) (i_changes i) (i_transcript i) (i_pct i)
                (i_mcp_local i) (i_mcp_cache i)
                (fun p => match f p with Some _ => Ok (i_age i) | None => Raise end)
                (fun p => match f p with Some s => Ok (univ_nl s) | None => Raise end)
